@@ -456,6 +456,49 @@ fn normalise_cases(sink: &mut Sink, rng: &mut Rng, n: usize, scratch: &str) {
             let got = sloc_guard::commands::context::verif_canonical_target(Path::new(&spelled));
             sink.push(Case { request: format!("target {} {} {}", enc(&cwd_s), enc(&logical_s), enc(&spelled)), implementation: enc(&got.to_string_lossy()), pred: "ok".into(), tag: format!("target/style{style}") });
         }
+        // several targets in one call: each is reduced, nested ones and repetitions are dropped
+        if !sink.want() {
+            sink.skip();
+        } else {
+            let pool = [".", "src", "src/", "./src", "src/deep", "src/deep/x y", "lib", "src-gen", "src/../lib", "..", "../proj/src", "", "/", "lib/.", "a.rs"];
+            let n = rng.fork().range(1, 4);
+            let mut rr = rng.fork();
+            let mut ts: Vec<String> = (0..n).map(|_| (*rr.pick(&pool)).to_string()).collect();
+            if rr.chance(1, 4) {
+                ts.push(format!("{cwd_s}/{}", rr.pick(&pool)));
+            }
+            if rr.chance(1, 6) {
+                ts.push(format!("{logical_s}/{}", rr.pick(&pool)));
+            }
+            let paths: Vec<PathBuf> = ts.iter().map(PathBuf::from).collect();
+            let got = sloc_guard::commands::context::verif_resolve_scan_paths(&paths, &[]);
+            // direct statement: every target given is still covered, no kept target lies below another
+            let mut pred = None;
+            let plain = |p: &Path| !p.is_absolute() && !p.components().any(|c| matches!(c, std::path::Component::ParentDir));
+            let below = |inner: &Path, outer: &Path| outer == Path::new(".") || inner.starts_with(outer);
+            for (i, a) in got.iter().enumerate() {
+                for (j, bq) in got.iter().enumerate() {
+                    if i != j && plain(a) && plain(bq) && below(a, bq) {
+                        pred = Some(format!("targets {ts:?}: both {bq:?} and {a:?} (below it) are scanned"));
+                    }
+                }
+            }
+            for t in &paths {
+                let r = sloc_guard::commands::context::verif_canonical_target(t);
+                if plain(&r) && !got.iter().any(|k| plain(k) && below(&r, k)) {
+                    pred = Some(format!("targets {ts:?}: {r:?} is covered by no scanned target {got:?}"));
+                }
+                if !plain(&r) && !got.contains(&r) {
+                    pred = Some(format!("targets {ts:?}: {r:?} (absolute or with ..) was dropped: {got:?}"));
+                }
+            }
+            sink.push(Case {
+                request: format!("targets {} {} {}{}", enc(&cwd_s), enc(&logical_s), ts.len(), ts.iter().map(|t| format!(" {}", enc(t))).collect::<String>()),
+                implementation: got.iter().map(|p| enc(&p.to_string_lossy())).collect::<Vec<_>>().join(" "),
+                pred: pred.map_or_else(|| "ok".into(), |p| format!("FAIL {p}")),
+                tag: format!("targets/{}/{}", ts.len(), got.len()),
+            });
+        }
         // what a walk from that root yields, and the keys derived from it
         let entry = ["a.rs", "src/a.rs", "deep/x y/b.rs", ""][rng.below(4)];
         if !sink.want() {
